@@ -170,8 +170,11 @@ def run(ctx):
     finally:
         _keys.random = saved_random
     # ---------------- (d) import / export of key sets
-    for _ in range(n_sets):
-        ks, names = make_set(rng, rng.randrange(1, 8), private=True)
+    fixed_sets = []
+    for names in ([("oct32", "HS256"), ("p256", "ES256"), ("ed25519", "EdDSA"), ("oct16", "A128KW"), ("rsa2048", "RS256")], [("oct16", "A128KW"), ("oct32", "HS256")], [("oct32", "HS256")]):
+        fixed_sets.append((KeySet([K.key(kn, private=True, **({"kid": f"kid-{i}-{kn}"} if i % 2 == 0 else {})) for i, (kn, _) in enumerate(names)]), names))
+    for i_set in range(len(fixed_sets) + n_sets):
+        ks, names = fixed_sets[i_set] if i_set < len(fixed_sets) else make_set(rng, rng.randrange(1, 8), private=True)
         for priv in (True, None):
             d = ks.as_dict(private=priv)
             ks2 = KeySet.import_key_set(copy.deepcopy(d))
@@ -179,6 +182,16 @@ def run(ctx):
             if [KC.pub_fingerprint(k.raw_value) for k in ks2.keys] != [KC.pub_fingerprint(k.raw_value) for k in ks.keys] or \
                     [k.kid for k in ks2.keys] != [k.kid for k in ks.keys] or any(k.kid is None for k in ks2.keys):
                 ctx.report("import_key_set(as_dict()) does not preserve the keys / kids", {"names": names}, "keyset:roundtrip")
+        # every export lists every key, in order, under its kid - also the public export of a set holding symmetric keys
+        # (whose public entry has no key material: it still says that the key exists and what it is called)
+        for priv, params in ((False, {}), (None, {}), (True, {}), (False, {"x-note": "n"})):
+            doc = ks.as_dict(private=priv, **params)
+            got = [(e.get("kty"), e.get("kid")) for e in doc["keys"]]
+            want = [(k.key_type, k.kid) for k in ks.keys]
+            ctx.count("keyset-export-entries", (repr(names), priv, bool(params)), True, "entries")
+            if got != want:
+                ctx.report(f"KeySet.as_dict(private={priv}) lists {len(got)} entries {got} for the {len(want)} keys {want}",
+                           {"names": names, "private": priv, "exported": got, "keys": want}, "keyset:export-entries")
         pub = KeySet.import_key_set(ks.as_dict(private=False)) if all(k.key_type != "oct" for k in ks.keys) else None
         if pub is not None and [k.kid for k in pub.keys] != [k.kid for k in ks.keys]:
             ctx.report("public key-set export changes kids", {"names": names}, "keyset:public-kids")
